@@ -166,3 +166,160 @@ Proof.
       { rewrite add_item_eq. destruct (aget _ _); [exact I|]. destruct (_ <? _); [exact I|]. destruct (_ <? _); exact I. }
       destruct (add_item R1 (b_next b) id data); cbn [snd]; exact H1.
 Qed.
+
+(* ====================================================================== *)
+(* The builder's own snapshots (C10)                                       *)
+(* ====================================================================== *)
+Definition uuid_okb (u : Z) : bool := (0 <=? u) && (u <? 2 ^ 128).
+
+(* the registry `ext` with numbers below `next` describes the items `ch` exactly *)
+Record bstate (ch : items) (ext : list (Z * Z)) (next : Z) : Prop := {
+  bs_sorted : sortedb (map fst ext) = true;
+  bs_entry : forall u t, aget u ext = Some t ->
+    16384 <= t < next /\ uuid_okb u = true /\ aget (key TYPE_ID_EX t) ch = Some (uuid_to_item_data u);
+  bs_inj : forall u u' t, aget u ext = Some t -> aget u' ext = Some t -> u = u';
+  bs_reg : forall k d, aget k ch = Some d -> key_to_raw_type_id k = TYPE_ID_EX -> exists u, aget u ext = Some (key_to_id k);
+  bs_high : forall k d, aget k ch = Some d -> 16384 <= key_to_raw_type_id k -> exists u, aget u ext = Some (key_to_raw_type_id k);
+  bs_contig : forall t, 16384 <= t < next -> exists u, aget u ext = Some t
+}.
+
+Record bgood (b : builder) : Prop := {
+  bg_raw : good (sn_raw (b_snap b));
+  bg_next : 16384 <= b_next b <= 32768;
+  bg_st : exists ch, rep (sn_raw (b_snap b)) ch /\ bstate ch (sn_ext (b_snap b)) (b_next b)
+}.
+
+Lemma bgood_new : bgood builder_new.
+Proof.
+  split; [apply good_empty|cbn [builder_new b_next]; unfold OFFSET_EXTENDED_TYPE_ID; lia|]. exists []. split; [apply rep_empty|].
+  split; cbn [builder_new b_snap b_next snap_empty sn_ext aget map]; try discriminate; try reflexivity.
+  intros t Ht. unfold OFFSET_EXTENDED_TYPE_ID in Ht. lia.
+Qed.
+
+(* adding an item whose type is an ordinal, or a registered number *)
+Lemma bstate_push ch ext next k d : bstate ch ext next -> aget k ch = None ->
+  key_to_raw_type_id k <> TYPE_ID_EX ->
+  (16384 <= key_to_raw_type_id k -> exists u, aget u ext = Some (key_to_raw_type_id k)) ->
+  bstate (ch ++ [(k, d)]) ext next.
+Proof.
+  intros B Hn Hty Hhigh. split.
+  - apply (bs_sorted _ _ _ B).
+  - intros u t Hu. destruct (bs_entry _ _ _ B u t Hu) as (H1 & H2 & H3). split; [exact H1|split; [exact H2|]].
+    rewrite aget_app, H3. reflexivity.
+  - apply (bs_inj _ _ _ B).
+  - intros k' d' Hk' Ht'. rewrite aget_app in Hk'. destruct (aget k' ch) as [d0|] eqn:E.
+    + apply (bs_reg _ _ _ B k' d0 E Ht').
+    + cbn [aget] in Hk'. destruct (Z.eqb_spec k' k); [subst; contradiction|discriminate].
+  - intros k' d' Hk' Ht'. rewrite aget_app in Hk'. destruct (aget k' ch) as [d0|] eqn:E.
+    + apply (bs_high _ _ _ B k' d0 E Ht').
+    + cbn [aget] in Hk'. destruct (Z.eqb_spec k' k); [subst; apply Hhigh, Ht'|discriminate].
+  - apply (bs_contig _ _ _ B).
+Qed.
+
+(* registering a new UUID under the next number *)
+Lemma bstate_register ch ext next u : bstate ch ext next -> aget u ext = None -> uuid_okb u = true ->
+  16384 <= next < 32768 -> aget (key TYPE_ID_EX next) ch = None ->
+  bstate (ch ++ [(key TYPE_ID_EX next, uuid_to_item_data u)]) (ains u next ext) (next + 1).
+Proof.
+  intros B Hu Hok Hn Hfresh.
+  assert (Hty : key_to_raw_type_id (key TYPE_ID_EX next) = TYPE_ID_EX) by (apply key_to_ty_key; unfold TYPE_ID_EX; lia).
+  assert (Hid : key_to_id (key TYPE_ID_EX next) = next) by (apply key_to_id_key; unfold TYPE_ID_EX; lia).
+  split.
+  - apply ains_sorted, (bs_sorted _ _ _ B).
+  - intros u' t Hu'. destruct (Z.eq_dec u' u) as [->|Hne].
+    + rewrite aget_ains_same in Hu'. injection Hu' as <-. split; [lia|]. split; [exact Hok|].
+      rewrite aget_app, Hfresh. cbn [aget]. rewrite Z.eqb_refl. reflexivity.
+    + rewrite aget_ains_other in Hu' by exact Hne. destruct (bs_entry _ _ _ B u' t Hu') as (H1 & H2 & H3).
+      split; [lia|]. split; [exact H2|]. rewrite aget_app, H3. reflexivity.
+  - intros u1 u2 t H1 H2. destruct (Z.eq_dec u1 u) as [->|N1]; destruct (Z.eq_dec u2 u) as [->|N2]; try reflexivity.
+    + rewrite aget_ains_same in H1. injection H1 as <-. rewrite aget_ains_other in H2 by exact N2.
+      destruct (bs_entry _ _ _ B u2 next H2) as [? _]. lia.
+    + rewrite aget_ains_same in H2. injection H2 as <-. rewrite aget_ains_other in H1 by exact N1.
+      destruct (bs_entry _ _ _ B u1 next H1) as [? _]. lia.
+    + rewrite aget_ains_other in H1 by exact N1. rewrite aget_ains_other in H2 by exact N2. apply (bs_inj _ _ _ B u1 u2 t H1 H2).
+  - intros k d Hk Ht. rewrite aget_app in Hk. destruct (aget k ch) as [d0|] eqn:E.
+    + destruct (bs_reg _ _ _ B k d0 E Ht) as [u' Hu']. exists u'. rewrite aget_ains_other; [exact Hu'|]. intros ->. congruence.
+    + cbn [aget] in Hk. destruct (Z.eqb_spec k (key TYPE_ID_EX next)); [|discriminate]. subst k. rewrite Hid. exists u. apply aget_ains_same.
+  - intros k d Hk Ht. rewrite aget_app in Hk. destruct (aget k ch) as [d0|] eqn:E.
+    + destruct (bs_high _ _ _ B k d0 E Ht) as [u' Hu']. exists u'. rewrite aget_ains_other; [exact Hu'|]. intros ->. congruence.
+    + cbn [aget] in Hk. destruct (Z.eqb_spec k (key TYPE_ID_EX next)); [|discriminate]. subst k. rewrite Hty in Ht. unfold TYPE_ID_EX in Ht. lia.
+  - intros t Ht. destruct (Z.eq_dec t next) as [->|Hne]; [exists u; apply aget_ains_same|].
+    destruct (bs_contig _ _ _ B t) as [u' Hu']; [lia|]. exists u'. rewrite aget_ains_other; [exact Hu'|]. intros ->. congruence.
+Qed.
+
+(* one successful raw add_item on a builder state *)
+Lemma add_item_bgood R ch ext next ty id data R' : good R -> rep R ch -> bstate ch ext next ->
+  0 < ty <= 65535 -> 0 <= id <= 65535 -> forallb is_i32 data = true ->
+  (16384 <= ty -> exists u, aget u ext = Some ty) ->
+  add_item R ty id data = Ok R' ->
+  good R' /\ exists ch', rep R' ch' /\ bstate ch' ext next.
+Proof.
+  intros G HR B Hty Hid Hd Hhigh E.
+  pose proof (add_item_good R ty id data G (ltac:(lia)) Hid Hd) as G'. rewrite E in G'. split; [exact G'|].
+  rewrite add_item_eq in E. destruct (aget (key ty id) (rs_offs R)) eqn:Hn; [discriminate|].
+  destruct (_ <? _); [discriminate|]. destruct (_ <? _); [discriminate|]. injection E as <-.
+  exists (ch ++ [(key ty id, data)]). split; [apply rep_pushed; assumption|].
+  apply bstate_push; [exact B|apply (rep_get_none _ _ _ HR), Hn| |].
+  - rewrite key_to_ty_key by lia. unfold TYPE_ID_EX. lia.
+  - rewrite key_to_ty_key by lia. exact Hhigh.
+Qed.
+
+Definition op_ok (t : tyid) (id : Z) (data : list Z) : Prop :=
+  match t with Ordinal o => 0 < o < OFFSET_EXTENDED_TYPE_ID | Uuid u => uuid_okb u = true end
+  /\ 0 <= id <= 65535 /\ forallb is_i32 data = true.
+
+Theorem builder_add_bgood b t id data : bgood b -> op_ok t id data ->
+  bgood (fst (builder_add b t id data)) /\ fine (snd (builder_add b t id data)).
+Proof.
+  intros G (Ht & Hid & Hd). split.
+  2:{ apply builder_add_fine; [intros o ->; exact Ht|]. pose proof (bg_next _ G). unfold OFFSET_EXTENDED_TYPE_ID. lia. }
+  destruct (bg_st _ G) as (ch & HR & B). pose proof (bg_raw _ G) as GR. pose proof (bg_next _ G) as Hn.
+  (* the second step of add_item, on any builder state with the same registry and numbering *)
+  assert (Step2 : forall b' ty, bgood b' -> 0 < ty <= 65535 ->
+            (16384 <= ty -> exists u, aget u (sn_ext (b_snap b')) = Some ty) ->
+            bgood (fst (match add_item (sn_raw (b_snap b')) ty id data with
+                        | Ok R => ({| b_snap := {| sn_raw := R; sn_ext := sn_ext (b_snap b') |}; b_next := b_next b' |}, Ok tt)
+                        | Err e => (b', Err e) | Panic s => (b', Panic s) | OutOfFuel => (b', OutOfFuel) end))).
+  { intros b' ty G' Hty Hhigh. destruct (bg_st _ G') as (ch' & HR' & B').
+    destruct (add_item (sn_raw (b_snap b')) ty id data) as [R2| | |] eqn:E; cbn [fst]; try exact G'.
+    destruct (add_item_bgood _ ch' _ _ ty id data R2 (bg_raw _ G') HR' B' Hty Hid Hd Hhigh E) as (G2 & ch2 & R2' & B2).
+    split; cbn [b_snap b_next sn_raw sn_ext]; [exact G2|apply (bg_next _ G')|exists ch2; split; assumption]. }
+  unfold builder_add. destruct t as [o|u].
+  - unfold OFFSET_EXTENDED_TYPE_ID in Ht.
+    replace ((0 <? o) && (o <? OFFSET_EXTENDED_TYPE_ID)) with true
+      by (symmetry; apply andb_true_iff; split; apply Z.ltb_lt; unfold OFFSET_EXTENDED_TYPE_ID; lia).
+    apply (Step2 b o G); [lia|intros; lia].
+  - destruct (aget u (sn_ext (b_snap b))) as [ty|] eqn:Hu.
+    + destruct (bs_entry _ _ _ B u ty Hu) as (H1 & _ & _). apply (Step2 b ty G); [lia|intros _; exists u; exact Hu].
+    + replace (OFFSET_EXTENDED_TYPE_ID <=? b_next b) with true by (symmetry; apply Z.leb_le; unfold OFFSET_EXTENDED_TYPE_ID; lia).
+      cbn [negb]. destruct (Z.leb_spec MAX_EXTENDED_TYPE_ID (b_next b)) as [Hmax|Hmax]; [exact G|].
+      unfold MAX_EXTENDED_TYPE_ID in Hmax.
+      destruct (add_item (sn_raw (b_snap b)) TYPE_ID_EX (b_next b) (uuid_to_item_data u)) as [R1| | |] eqn:E1; cbn [fst]; try exact G.
+      assert (G1 : good R1).
+      { pose proof (add_item_good (sn_raw (b_snap b)) TYPE_ID_EX (b_next b) (uuid_to_item_data u) GR) as H.
+        rewrite E1 in H. apply H; [unfold TYPE_ID_EX; lia|lia|apply uuid_words_i32]. }
+      rewrite add_item_eq in E1. destruct (aget (key TYPE_ID_EX (b_next b)) (rs_offs (sn_raw (b_snap b)))) eqn:Hfresh; [discriminate|].
+      destruct (_ <? _); [discriminate|]. destruct (_ <? _); [discriminate|]. injection E1 as <-.
+      apply (Step2 {| b_snap := {| sn_raw := pushed (sn_raw (b_snap b)) (key TYPE_ID_EX (b_next b)) (uuid_to_item_data u);
+                                   sn_ext := ains u (b_next b) (sn_ext (b_snap b)) |}; b_next := b_next b + 1 |} (b_next b)).
+      * split; cbn [b_snap b_next sn_raw sn_ext]; [exact G1|lia|].
+        exists (ch ++ [(key TYPE_ID_EX (b_next b), uuid_to_item_data u)]). split; [apply rep_pushed; assumption|].
+        apply bstate_register; [exact B|exact Hu|exact Ht|lia|apply (rep_get_none _ _ _ HR), Hfresh].
+      * lia.
+      * intros _. exists u. cbn [b_snap sn_ext]. apply aget_ains_same.
+Qed.
+
+(* any sequence of valid builder calls *)
+Fixpoint build (ops : list (tyid * Z * list Z)) (b : builder) : builder :=
+  match ops with
+  | [] => b
+  | (t, id, data) :: r => build r (fst (builder_add b t id data))
+  end.
+
+Theorem build_bgood ops : (forall t id data, In (t, id, data) ops -> op_ok t id data) ->
+  forall b, bgood b -> bgood (build ops b).
+Proof.
+  induction ops as [|[[t id] data] ops IH]; intros Hok b G; [exact G|]. cbn [build].
+  apply IH; [intros; apply Hok; right; assumption|].
+  apply builder_add_bgood; [exact G|apply Hok; left; reflexivity].
+Qed.
